@@ -411,6 +411,27 @@ def object_shapes(nm: Namer) -> Dict[str, Callable[[T, Ctx], Optional[T]]]:
             ),
         )
 
+    def ser_override(x, c):
+        # a serialized method registered again by the subclass under the same name: the subclass's declaration (function,
+        # return type) is the one of the subclass; the other method of the base is inherited
+        base = Obj(
+            "dataclass",
+            nm("B"),
+            (F("a", x),),
+            methods=(M("m", INT, "1", lambda fs: 1), M("w", AnyT(), "self.a", lambda fs: fs["a"])),
+        )
+        return Obj(
+            "dataclass",
+            nm("O"),
+            (F("b", INT, default="0", has_default=True, default_value=0),),
+            bases=(base.name,),
+            base_specs=(base,),
+            methods=(
+                M("w", AnyT(), "self.a", lambda fs: fs["a"], inherited=True),
+                M("m", Uni((STR, Prim("undefined"))), "Undefined", lambda fs: UNDEF, undefined=True),
+            ),
+        )
+
     def ser_rec_method(x, c):
         # the class is recursive only through the return types of its serialized methods
         n = nm("O")
